@@ -187,7 +187,7 @@ Cv(U, dr, a, v, stack) ==
       \* after Unmarshal, false is {"not": {}}: Not != nil and *Not is the zero Schema
       falsy == hasAdd /\ (s.additionalProperties = FalseS
                           \/ (DOMAIN s.additionalProperties = {"not"}
-                              /\ s.additionalProperties["not"] \in {TrueS, <<>>}))
+                              /\ (s.additionalProperties["not"] = TrueS \/ DOMAIN s.additionalProperties["not"] = {})))
       addOK == hasAdd => IF falsy THEN nms \ ev1 = {}
                          ELSE \A k \in nms \ ev1 : C(SegK("additionalProperties"), v.m[k]).ok
       ev2 == IF hasAdd /\ ~falsy THEN nms ELSE ev1
